@@ -206,24 +206,25 @@ COMMON_TECH = ("; every campaign shard is a fresh process whose first JASM opera
                "failing inputs of confirmed seeded changes (corpus/) are replayed first")
 CGF_TECH = "; the thorough tier adds a coverage-guided stage (atheris/libFuzzer driving the same Hypothesis strategy through fuzz_one_input with JASM's own Python code instrumented, same oracle inside the target)"
 ADD_TEXT = {
-    "C20": " Paths may be relative to the working directory with the pattern in a sub-directory and a same-named decoy macro file next to it (the API is called under the same cwd with the same strings); listings may carry two title lines (doubled text, archives, COFF); Matched-address lines are counted whatever logger format prints them.",
-    "C18": " Ranges may start at address 0 and targets may be 0; callq/jmpq are judged as the direct call/jmp they are.",
-    "C02": " Spellings include the sibling key written before the item key; kinds include a repeated single-child group whose child is itself repeated (bodies one instruction short / long) and a ranged run followed by an instruction the run's own name fits. A metamorphic class checks that a plain use of a macro stays (1,1) when another use of the same macro carries times.",
-    "C06": " Negative displacements are also spelled without 0x; candidates include the rule's operand printed with the pseudo index register %riz / %eiz.",
+    "C07": " Listings may consist of several section blocks while the rule carries a sections list (which concerns binaries only).",
+    "C20": " Paths may be relative to the working directory with the pattern in a sub-directory and a same-named decoy macro file next to it (the API is called under the same cwd with the same strings); listings may carry two title lines (doubled text, archives, COFF); Matched-address lines are counted whatever logger format prints them. Broad cases may come in several section blocks with a sections list in the rule.",
+    "C18": " Ranges may start at address 0 and targets may be 0; callq/jmpq are judged as the direct call/jmp they are. The w spellings callw/jmpw that objdump prints for 66 e8 / 66 e9 are generated too; bounds may carry a 0X prefix; the rule may carry style intel/att; short addresses are as frequent as long ones.",
+    "C02": " Spellings include the sibling key written before the item key; kinds include a repeated single-child group whose child is itself repeated (bodies one instruction short / long) and a ranged run followed by an instruction the run's own name fits. A metamorphic class checks that a plain use of a macro stays (1,1) when another use of the same macro carries times. Further kinds: both levels of a nested repetition ranged with the run length in a gap of the reachable totals; the repeated item is a later occurrence of an instruction capture defined just before it (and, at operand level, of an operand capture).",
+    "C06": " Negative displacements are also spelled without 0x; candidates include the rule's operand printed with the pseudo index register %riz / %eiz. A third of the cases whose only described operand is the $deref run under operands-full-match, another third under both full-match flags.",
     "C09": " Instructions printed with prefix words are judged by the operands after their real mnemonic (open known finding F15: they are dropped); with a valid_addr_range containing every address only branches may differ from the plain stream. Real objdump lines are taken in every layout objdump offers (wide, --insn-width, --no-show-raw-insn).",
     "C15": " Objects may carry a malformed .note.gnu.property that makes objdump warn on stderr while exiting 0. The object is also given as COFF (pe-x86-64, pe-i386, pe-bigobj), as a regular, two-member or thin ar archive.",
-    "C01": " Exhaustive sub-parts: a small-scope grid (names over {a,ab,b}, operands over {x,xy,y}) and a 64-item literal rule whose only occurrence straddles each of 17 plausible chunk sizes (2^8..2^17, round decimals) of a long listing, intact and with one instruction replaced. Every case is also asked in address-only presentation (incl. listings starting at address 0) and compared with the reference scan; a class describes immediates in the <hex>h spelling.",
+    "C01": " Exhaustive sub-parts: a small-scope grid (names over {a,ab,b}, operands over {x,xy,y}) and a 64-item literal rule whose only occurrence straddles each of 17 plausible chunk sizes (2^8..2^17, round decimals) of a long listing, intact and with one instruction replaced. Every case is also asked in address-only presentation (incl. listings starting at address 0) and compared with the reference scan; a class describes immediates in the <hex>h spelling. A mutator describes an operand by an integer-typed name (unquoted 16, 255, -8) against operands that show the hexadecimal rendering of that value.",
     "C03": " Further levels: an operator nested directly in the same operator with the window permuted (an outer sibling between the inner group's instructions), and a $deref as child of an operand-level $and/$and_any_order followed by a nested operator. The inner group may also be an explicit $and inside $and_any_order. Operand-level $or with alternatives in the <hex>h spelling next to plain ones; six fixed 7-child $and_any_order rules (5040 orderings) with substring-related names, a missing and a doubled child.",
-    "C04": " A double negation $not[$not[X]] (which still consumes exactly one instruction) is one of the positions.",
-    "C05": " Captures in $deref fields (fields written in a drawn key order, names reused in fields of the same kind) are judged by a component-wise oracle on operands that have exactly the rule's components. Capture-free uses of the shipped macro library precede capture sites; a later occurrence may differ in letter case only. Further forms: a later occurrence of a plain capture inside a logical operator inside a $deref field; 9-130 capture names on the spine with a later occurrence of one of them (verdict known by construction).",
+    "C04": " A double negation $not[$not[X]] (which still consumes exactly one instruction) is one of the positions. One position has the $not's argument define a capture while the next item defines and reuses another one.",
+    "C05": " Captures in $deref fields (fields written in a drawn key order, names reused in fields of the same kind) are judged by a component-wise oracle on operands that have exactly the rule's components. Capture-free uses of the shipped macro library precede capture sites; a later occurrence may differ in letter case only. Further forms: a later occurrence of a plain capture inside a logical operator inside a $deref field; 9-130 capture names on the spine with a later occurrence of one of them (verdict known by construction). Two or three names may differ only in letter case.",
     "C08": " Sub-part: synthetic listings of every length c-1, c, c+1 around 17 plausible chunk sizes (up to 131 073 instructions) must give exactly the prescribed stream. Listings are taken in every layout objdump offers (-w, --insn-width=8/11/15, --no-show-raw-insn); {vex} pseudo prefixes; one symbol name per third object listing is replaced by bytes that are not valid UTF-8, where the stream must not change (open known finding F24: UnicodeDecodeError).",
     "C10": " Sub-part: synthetic listings of every length c-1, c, c+1 around 17 plausible chunk sizes (up to 131 073 instructions) must give exactly the prescribed stream. Real objdump output is taken in every layout objdump offers (wide, --insn-width, --no-show-raw-insn).",
     "C11": " Sub-parts: a 33 000-instruction listing with occurrences around multiples of 32 768, and for each of 17 plausible chunk sizes a long listing whose occurrences straddle that index, matched by four rules (pair, ordered alternatives whose leftmost match needs the instruction past the cut, a greedy variable-length run, a 64-item rule). Injected regex time-outs (harness side) must surface as errors, never as a shorter list; template with a ranged run followed by an item the run's name also fits.",
-    "C12": " The same laws are checked on long (> 64 KiB) listings whose occurrence straddles a plausible chunk size, in all 8 modes.",
-    "C13": " Base rules contain $deref items, so formals also stand for values of a mapping directly under a key. Actuals may be spelled like another formal, formals are short enough to occur inside body literals, string macros may have a top-level alternation; differing regex texts are additionally judged on witness listings synthesised from the inlined rule. Hand-inlined parameterised cases: a formal handed on to a second macro under the same name, an inner call with a fixed argument labelled like the outer formal, a formal named like a key inside another argument; a compositionality relation ([X, @m] compiles to [X] followed by [@m]) needs no reference; the same string macro twice in one name.",
+    "C12": " The same laws are checked on long (> 64 KiB) listings whose occurrence straddles a plausible chunk size, in all 8 modes. Listings may consist of several section blocks while the rule carries a sections list.",
+    "C13": " Base rules contain $deref items, so formals also stand for values of a mapping directly under a key. Actuals may be spelled like another formal, formals are short enough to occur inside body literals, string macros may have a top-level alternation; differing regex texts are additionally judged on witness listings synthesised from the inlined rule. Hand-inlined parameterised cases: a formal handed on to a second macro under the same name, an inner call with a fixed argument labelled like the outer formal, a formal named like a key inside another argument; a compositionality relation ([X, @m] compiles to [X] followed by [@m]) needs no reference; the same string macro twice in one name. Further hand-inlined variants: the nested call spelling (labels under the macro name) and a formal parameter standing for the value of times.",
     "C14": " A second family of generated histories rewrites the rule, listing, binary and macro-library files themselves in place (same path, same byte length, same second) between operations; every match step is compared with the same operation on a private copy of the files as they are at that step, run in a separately forked process. Pool and templates include inverted ranges, style x sections on binaries, and hand-written rule text with unquoted hexadecimal scalars. The rewrite histories are also driven by a hypothesis.stateful RuleBasedStateMachine (model: variant per slot + set of slots already read; preconditions steer towards rewriting a file that was read and asking again; one worker process per example). Rules with an empty config section (YAML null) are in the pool and in the step templates.",
-    "C16": " Edits include byte columns wider than 7 bytes (objdump --insn-width), comments that end in a colon or look like a section header, and every stream comparison is repeated with valid_addr_range and a sections list configured. The raw-byte column may be removed altogether (objdump --no-show-raw-insn).",
-    "C17": " In addition to the random campaign every (input mode, fault) cell is evaluated on every run (deterministic grid; thorough: three bases, API and CLI). Further fault kinds: listing saved as UTF-16, undefined macro introduced by another macro's expansion. Fault kinds include valid_addr_range bounds written as unquoted (integer) hex scalars with a base rule that needs the range.",
+    "C16": " Edits include byte columns wider than 7 bytes (objdump --insn-width), comments that end in a colon or look like a section header, and every stream comparison is repeated with valid_addr_range and a sections list configured. The raw-byte column may be removed altogether (objdump --no-show-raw-insn). The config variant also carries style intel/att; a quarter of the cases force an annotation renamed to a C++ symbol containing <, > and blanks.",
+    "C17": " In addition to the random campaign every (input mode, fault) cell is evaluated on every run (deterministic grid; thorough: three bases, API and CLI). Further fault kinds: listing saved as UTF-16, undefined macro introduced by another macro's expansion. Fault kinds include valid_addr_range bounds written as unquoted (integer) hex scalars with a base rule that needs the range. Further faults: a falsy wrongly typed valid_addr_range ([], 0, false, '') with a range-dependent base rule; an ar archive whose second member objdump cannot read (partial listing, exit 1).",
     "C19": " Reference names include non-identifiers (@64bit_, @8_), references spliced into longer mnemonic/operand names, and a reference to a macro that is defined but applied before its user (must be reported or expanded, never kept). Cyclic macro definitions are a fault kind. A fault places the undefined reference in the same name as a defined string macro.",
 }
 
